@@ -48,6 +48,15 @@ def reuse_case(idx, payload):
     except Exception as e:  # noqa
         res["err"] = classify_exc(e)
         return res
+    # the same history on the model's wrapper-object state machine (Model/PybindState.lean, theorem C14_reuse_history)
+    st, ans = fw.worker_driver().call("pyhist", "\x1e".join(texts), streams.TPL_MIN, "m", "\x1f", "1" if boost else "0", "")
+    model_outs = ans.split("\x1e") if st == "ok" else None
+    if model_outs != ["ok:" + o for o in outs]:
+        k = next((j for j in range(len(outs)) if model_outs is None or j >= len(model_outs) or model_outs[j] != "ok:" + outs[j]), 0)
+        res["bad"] = dict(kind="model", what="model of a re-used wrapper object differs from the implementation at call %d of the history" % k,
+                          input=texts[k], earlier_inputs=texts[:k],
+                          **(streams.first_diff(outs[k], model_outs[k][3:]) if model_outs and k < len(model_outs) else dict(got=str(ans)[:200])))
+        return res
     for i, (t, o) in enumerate(zip(texts, outs)):
         fresh = impl_pybind(t, streams.TPL_MIN, "m", [''], boost, [], None)
         again = impl_pybind(t, streams.TPL_MIN, "m", [''], boost, [], None)
@@ -427,7 +436,11 @@ def run(ctx, n_reuse, n_proc, off=0, collect=True):
                 ctx.count("stream_" + tag)
                 ctx.count("script_runs", r.get("runs", 0))
             b = r["bad"]
-            if b:
+            if b and b.get("kind") == "model":
+                b.pop("kind")
+                if collect:
+                    ctx.disagree(b.pop("what"), **b)
+            elif b:
                 first = first or dict(b)
                 if collect:
                     ctx.spec_fail(b.pop("what"), **b)
